@@ -464,5 +464,9 @@ def main(tier):
 
 def replay(path):
     rec = json.load(open(path))
+    # the scenario is regenerated from the specification: the quick tier is run again and the verdict reported for this file
     print(json.dumps(rec["sig"]))
-    return main("quick")
+    rc = main("quick")
+    if rc == 1:
+        print("VIOLATION property=%s replay=%s" % (rec["property"], path))
+    return rc
